@@ -28,10 +28,16 @@ func (ex *Exec) indexModel(hay, sep Region) *Term {
 		it := c64(c, i)
 		inRange := c.Ule(c64(c, i+m), hay.n)
 		var eqs []*Term
+		var hs, ss []*Term
 		for j := uint64(0); j < m; j++ {
-			eqs = append(eqs, c.Eq(ex.regAt(hay, c64(c, i+j)), ex.regAt(sep, c64(c, j))))
+			h, s := ex.regAt(hay, c64(c, i+j)), ex.regAt(sep, c64(c, j))
+			hs, ss = append(hs, h), append(ss, s)
+			eqs = append(eqs, c.Eq(h, s))
 		}
 		match := c.And(append(eqs, inRange)...)
+		if ex.ideal() && m >= 8 && ex.idealMismatch(hs, ss) {
+			match = c.Bool(false)
+		}
 		isR := c.Eq(r, it)
 		anyMatch = append(anyMatch, isR)
 		cons = append(cons, c.Implies(isR, match))
